@@ -38,7 +38,8 @@ EXPLANATION = (
     "reached only through _get_single; with follow_redirects false get() returns one "
     "_get_single result unchanged. (G5) the loop test is `url in chain` before the fetch and "
     "the appended element is the fetched URL. "
-    "(G6) the accessor of the response the follower reads for the next hop returns self.meta unaltered."
+    "(G6) the accessor of the response the follower reads for the next hop returns self.meta unaltered. "
+    "(G7) max_redirects reaches the client as the caller's own value."
 )
 
 SESSION = "client.session:GeminiClient"
